@@ -13,7 +13,19 @@ CONSTANT MaxLex, Emit
 Lexemes == { B("PRINT"), B("GO"), B("TO"), B("GOSUB"), B("IF"), B("THEN"), B("FOR"),
              B("OR"), B("NOT"), B("SC"), B("E"), B("x"), B("1"), B("5"), B("0"), B("."), B("\""),
              B("<"), B(">"), B("="), B(":"), B(","), B("$"), B(" "), B("+"), <<195, 169>>,
-             B("REM"), B("DATA"), B("data "), B("("), B("x1") }
+             B("REM"), B("DATA"), B("data "), B("("), B("x1"), B("\"\",") }       \* `"",` : an explicitly empty DATA item followed by another
+
+\* Numerals of hundreds of digits (C14): the model's boundary between the largest
+\* number and "too large to be a number" is 2^1024 - 2^970, as in IEEE rounding.
+Nines(k) == [i \in 1..k |-> 57]
+ASSUME /\ Tokenize(F64Limit, 0).err = "invalid_number"
+       /\ Tokenize(Nines(309), 0).err = "invalid_number"
+       /\ Tokenize(<<49>> \o Zeros(309), 0).err = "invalid_number"
+       /\ Tokenize(Nines(308), 0).err = ""
+       /\ Tokenize(<<49>> \o Zeros(308), 0).err = ""
+       /\ Tokenize(SubSeq(F64Limit, 1, 308) \o <<49>>, 0).err = ""
+       /\ Tokenize(B("X.") \o Zeros(340) \o <<49>>, 0).toks[2].v = NZero
+       /\ ListLine(K10, Tokenize(B("X.") \o Zeros(340) \o <<49>>, 0).toks).s = B("10 X .0") \o <<LF>>
 
 VARIABLES line, n
 vars == <<line, n>>
